@@ -15,6 +15,7 @@
 // Every scenario runs in a forked child (Fatal() exits the process).
 #include "common.h"
 
+#include <fcntl.h>
 #include <sys/types.h>
 #include <sys/wait.h>
 #include <unistd.h>
@@ -174,8 +175,15 @@ std::string run_scenario(const std::string& line) {
 }
 
 int run_manifest(int, char**) {
-  std::string line;
-  while (std::getline(std::cin, line)) {
+  // All input is read before the first fork: a child that leaves through exit() (Fatal) makes
+  // glibc seek the shared stdin offset back to its logical position, which would make the
+  // parent read the same lines again.
+  std::vector<std::string> lines;
+  {
+    std::string l;
+    while (std::getline(std::cin, l)) lines.push_back(l);
+  }
+  for (const std::string& line : lines) {
     fflush(stdout);
     int efd[2];
     if (pipe(efd) != 0) { perror("pipe"); return 3; }
@@ -185,6 +193,8 @@ int run_manifest(int, char**) {
       close(efd[0]);
       dup2(efd[1], 2);
       close(efd[1]);
+      int nfd = open("/dev/null", O_RDONLY);
+      if (nfd >= 0) { dup2(nfd, 0); close(nfd); }
       std::string r = run_scenario(line);
       printf("%s\n", r.c_str());
       fflush(stdout);
